@@ -64,6 +64,12 @@ func NewGzipResponseWriter(w http.ResponseWriter, contentTypes *regexp.Regexp) *
 }
 
 func (grw *GzipResponseWriter) WriteHeader(code int) {
+	// an informational response (103 Early Hints, ...) is not the response:
+	// its headers say nothing about the content that follows
+	if code >= 100 && code < 200 && code != http.StatusSwitchingProtocols {
+		grw.ResponseWriter.WriteHeader(code)
+		return
+	}
 	if grw.writer == nil {
 		if isCompressable(grw.Header(), grw.contentTypes) {
 			grw.Header().Del(headerContentLength)
